@@ -1297,6 +1297,20 @@ const INVALID: &[(&str, &str)] = &[
 	("duplicate", ".const d9, 1; .export d9; .const e9, 2; .global d9; .du8 e9;"),
 	("hex", ".dhex \"0g\";"),
 	("hex", ".dhex \"abc\";"),
+	("hex", ".dhex \"a\";"),
+	("hex", ".dhex \"abcde\";"),
+	("hex", ".dhex \"a\u{e9}\";"),
+	("hex", ".dhex \"0a5\u{20ac}\";"),
+	("hex", ".dhex \"\u{e9}\";"),
+	("hex", ".dhex \"0\u{e9}0\";"),
+	("hex", ".dhex \"a\u{1F600}b\";"),
+	("hex", ".dhex \"00 \u{e9}\u{e9} 11\";"),
+	("hex", ".dhex \"\u{ff10}\u{ff11}\";"),
+	("hex", ".dhex \"+f\";"),
+	("hex", ".dhex \"-1\";"),
+	("hex", ".dhex \"0f +f\";"),
+	("hex", ".dhex \"0x10\";"),
+	("hex", ".dhex \"f\\u{e9}\";"),
 	("file", ".dfile \"missing.bin\";"),
 	("file", ".include \"missing.asm\";"),
 	("parse", "MOVS R0 R1;"),
@@ -2299,6 +2313,20 @@ oracle = no panic; success xor (diagnostic with file/line/col or close error); i
 			{
 				check_c06(cx, &Project::single(text.as_bytes()), Expect::MustFail, "write-before-addr", &dir);
 			}
+			// every known mnemonic with suffix spam is an unknown mnemonic
+			for (mn, ops) in [("NOP", ""), ("WFI", ""), ("SEV", ""), ("YIELD", ""), ("UDF.W", " 1"), ("UDF.N", " 1"), ("ADDS", " R0, R1, R2"), ("MOVS", " R0, 1"), ("MOV", " R8, R0"), ("B", " 0x100"), ("BL", " 0x100"),
+				("BEQ", " 0x100"), ("BX", " LR"), ("LDR", " R0, [R1]"), ("STRB", " R0, [R1 + 1]"), ("PUSH", " {R0}"), ("POP", " {R1}"), ("SVC", " 1"), ("BKPT", " 1"), ("DMB", " SY"), ("MRS", " R0, PRIMASK"),
+				("CPSID", " i"), ("ADCS", " R0, R1"), ("LSLS", " R0, R1, 1"), ("CMP", " R0, 1"), ("ADR", " R0, 0x104"), ("SXTB", " R0, R1")]
+			{
+				for suf in [".n", ".N", ".n.n", ".w", ".W", ".w.n", "..n", ".", ".n.", ".n.n.n", ".N.n"]
+				{
+					for lower in [false, true]
+					{
+						let name = if lower {format!("{}{suf}", mn.to_lowercase())} else {format!("{mn}{suf}")};
+						check_c06(cx, &Project::single(format!(".addr 0x100;\n{name}{ops};\n").as_bytes()), Expect::MustFail, "mnemonic with suffix spam", &dir);
+					}
+				}
+			}
 			// constructs with a known position and message; multi-file scenarios; `.include` without a current file
 			for (class, text, line, col, fragment) in POSITIONED
 			{
@@ -2404,8 +2432,16 @@ oracle = no panic; success xor (diagnostic with file/line/col or close error); i
 					else if rng.chance(1, 6) {char::from_u32(rng.below(0x11_0000) as u32).unwrap_or('\u{fffd}').to_string()}
 					else {rng.pick(&chars).to_string()}
 				};
-				let text = match i % 4
+				let text = match if i % 9 == 8 {4} else {i % 4}
 				{
+					4 =>
+					{
+						// hex strings: digits, blanks, signs, non-ASCII characters of every width, odd lengths
+						let n = rng.below(9);
+						let body: String = (0..n).map(|_| match rng.below(8) {0 => rng.pick(&chars).to_string(), 1 => (*rng.pick(&["+", "-", " ", "\t", "x", "g", "\u{e9}", "\u{20ac}", "\u{1F600}", "\u{ff11}"])).to_owned(),
+							_ => char::from_digit(rng.below(16) as u32, 16).unwrap().to_string()}).collect();
+						format!(".addr 0x100;\n.dhex \"{}\";\n.du8 3;\n", body.replace('\\', "").replace('"', ""))
+					},
 					0 => format!(".addr 0x100;\n.du32 '{}';\n.du8 1;\n", if (i / 4) < chars.len() as u64 {chars[(i / 4) as usize].to_string()} else {piece(&mut rng)}),
 					1 => {let n = rng.below(5); let body: String = (0..n).map(|_| piece(&mut rng)).collect(); format!(".addr 0x100;\n.dstr \"{body}\";\n.du8 2;\n")},
 					2 => format!(".addr 0x100;\n.du32 '{}' + '{}';\n.dstr \"{}{}\";\n", piece(&mut rng), piece(&mut rng), piece(&mut rng), piece(&mut rng)),
